@@ -22,6 +22,14 @@ using namespace yorel::yomm2;
 #ifndef NIDS_MASK
 #define NIDS_MASK 0
 #endif
+#ifndef INDIRECT
+#define INDIRECT 0
+#endif
+#if INDIRECT
+#define IND_FACET , policy::basic_indirect_vptr<P>
+#else
+#define IND_FACET
+#endif
 
 static int got_hash_search_error, got_unknown_class, got_other_error;
 static type_id unknown_type_reported;
@@ -42,9 +50,9 @@ struct sym_rtti : policy::rtti {
 };
 
 #if CHECKED
-struct P : policy::basic_policy<P, sym_rtti, policy::checked_perfect_hash<P>, policy::vptr_vector<P>, rec_error> {};
+struct P : policy::basic_policy<P, sym_rtti, policy::checked_perfect_hash<P>, policy::vptr_vector<P> IND_FACET, rec_error> {};
 #else
-struct P : policy::basic_policy<P, sym_rtti, policy::fast_perfect_hash<P>, policy::vptr_vector<P>, rec_error> {};
+struct P : policy::basic_policy<P, sym_rtti, policy::fast_perfect_hash<P>, policy::vptr_vector<P> IND_FACET, rec_error> {};
 #endif
 
 // class record shaped like generic_compiler::class_ as seen by publish_vptrs
@@ -54,11 +62,12 @@ struct Rec {
     unsigned nids;
     std::uintptr_t table[1];
     const std::uintptr_t* vptr() const { return table; }
-    const std::uintptr_t* const* indirect_vptr() const { return nullptr; }
+    const std::uintptr_t* slot;  // stands for the class's static v-table pointer variable
+    const std::uintptr_t* const* indirect_vptr() const { return &slot; }
     const type_id* type_id_begin() const { return ids; }
     const type_id* type_id_end() const { return nids == 1 ? ids + 1 : ids + 2; }
 };
-static Rec r0{ids0}, r1{ids1}, r2{ids2}, r3{ids3};
+static Rec r0{ids0, 1, {0}, nullptr}, r1{ids1, 1, {0}, nullptr}, r2{ids2, 1, {0}, nullptr}, r3{ids3, 1, {0}, nullptr};
 static Rec* rec(int i) { return i == 0 ? &r0 : i == 1 ? &r1 : i == 2 ? &r2 : &r3; }
 struct It {
     using iterator_category = std::forward_iterator_tag;
@@ -99,6 +108,11 @@ extern "C" void cbmc_main() {
         static std::uintptr_t stale[1];
         P::vptrs.resize(HASHCAP);
         for (unsigned i = 0; i < HASHCAP; i++) if (nondet_u32() % 2) P::vptrs[i] = stale;
+#if INDIRECT
+        static const std::uintptr_t* stale_slot;
+        P::indirect_vptrs.resize(HASHCAP);
+        for (unsigned i = 0; i < HASHCAP; i++) if (nondet_u32() % 2) P::indirect_vptrs[i] = &stale_slot;
+#endif
 #if CHECKED
         P::control.resize(HASHCAP);
         for (unsigned i = 0; i < HASHCAP; i++) P::control[i] = nondet_u64();
@@ -134,6 +148,9 @@ extern "C" void cbmc_main() {
             type_id h = policy::fast_perfect_hash<P>::hash_type_id(r->ids[k]);
             verif_assert(h < P::hash_length, 4);
             if (h < P::vptrs.size()) verif_assert(P::vptrs[h] == r->vptr(), 5);
+#if INDIRECT
+            verif_assert(h < P::indirect_vptrs.size() && P::indirect_vptrs[h] == r->indirect_vptr(), 12);
+#endif
             for (int j = 0; j < 2 * NCLS; j++) if (j < nidx) verif_assert(idx[j] != h, 6);
             idx[nidx++] = h;
 #if CHECKED
